@@ -9,6 +9,7 @@ import (
 	"encoding/json"
 	"fmt"
 	"runtime"
+	"sort"
 
 	"github.com/go-netty/go-netty/zz_verif/clib"
 	"github.com/go-netty/go-netty/zz_verif/explore"
@@ -79,6 +80,25 @@ func run(cc c8case) (string, string) {
 		return "unbounded-buffering/" + kc, desc() + fmt.Sprintf(": the decoder pulled %d bytes, more than maximum + header = %d", res.T.Consumed, cc.Budget)
 	}
 	return "", ""
+}
+
+// deterministic enumeration order (Go randomises map iteration)
+func sortedKeys(m map[string]uint64) []string {
+	ks := make([]string, 0, len(m))
+	for k := range m {
+		ks = append(ks, k)
+	}
+	sort.Strings(ks)
+	return ks
+}
+
+func sortedKeysB(m map[string][]byte) []string {
+	ks := make([]string, 0, len(m))
+	for k := range m {
+		ks = append(ks, k)
+	}
+	sort.Strings(ks)
+	return ks
 }
 
 func clipB(b []byte) []byte {
@@ -257,7 +277,8 @@ func scenarios(thorough bool) []*explore.Scenario {
 							vals[fmt.Sprintf("frame of total length max+%d", d)] = uint64(f)
 						}
 					}
-					for name, v := range vals {
+					for _, name := range sortedKeys(vals) {
+						v := vals[name]
 						body := int64(v) + int64(cfg.Adj)
 						cc := c8case{Cfg: cfg, Stream: mk(v), Bad: name, Budget: budget}
 						if cfg.W == 8 && v > 1<<63-1 {
@@ -299,7 +320,8 @@ func scenarios(thorough bool) []*explore.Scenario {
 						"unterminated varint then EOF":  bytes.Repeat([]byte{0x80}, 3),
 						"non-minimal varint for 1 byte": {0x81, 0x00},
 					}
-					for name, h := range bad {
+					for _, name := range sortedKeysB(bad) {
+						h := bad[name]
 						cc := c8case{Cfg: cfg, Stream: append(append([]byte{}, h...), filler...), Bad: name, Budget: max + 11}
 						if name == "unterminated varint then EOF" {
 							cc.Stream = h
